@@ -22,6 +22,8 @@ func scenarios(thorough bool) []poolh.Params {
 		{Max: 1, Callers: 2, CallsEach: 1, SlowReady: true, Env: []string{"kill:1"}},
 		{Max: 2, Callers: 3, CallsEach: 1, Env: []string{"kill:1"}},
 		{Max: 1, Callers: 2, CallsEach: 1, Env: []string{"cancel:1", "kill:1"}},
+		{Max: 1, Callers: 4, CallsEach: 1, Staged: true, Env: []string{"finish", "cancel:2", "kill:1"}},
+		{Max: 1, Callers: 3, CallsEach: 1, Staged: true, Env: []string{"finish", "cancel:2", "kill:1"}},
 	}
 	if thorough {
 		s = append(s,
@@ -77,6 +79,15 @@ func main() {
 			b = 1
 		}
 		sc := mk(scs[u.sc])
+		if scs[u.sc].Staged {
+			// the staged driver fixes the order in which callers arrive; what remains free is the race of the environment events
+			b = 1
+			sc.FreeBound = 5
+			if c.Thorough() {
+				b = 2
+				sc.FreeBound = 6
+			}
+		}
 		if scs[u.sc].SlowReady {
 			// delayed readiness adds a network thread whose order against everything else is free:
 			// cap the number of non-default cost-free choices as well
